@@ -141,6 +141,20 @@ CLAIMED['C13'] = dict(
          'outside the claim.',
     design='5/C13')
 
+CLAIMED['C12'] = dict(
+    text='The real provider loop is brought into each waiting state (2, 3, 5, 6, 7, 13) by a conformant prefix over the '
+         'simulated transport and then receives hostile bytes followed by the peer closing: unknown type bytes (symbolic over '
+         '0, 8..255), the PDU length field replaced by a symbolic 32-bit value, one byte at each structural offset replaced '
+         'by a symbolic value, truncation at a symbolic point with fixed-up length, PDV length / context id / control header '
+         '/ command bytes symbolic, arbitrary symbolic bodies, and every valid PDU in every state. Asserted: the loop neither '
+         'dies nor blocks, ends idle with the connection closed and released, the user is told, everything written parses '
+         'with an independent PS3.8 reference parser, and an A-ABORT (plus A-P-ABORT indication) answers what no decoder '
+         'could accept.',
+    note=TRUSTED + 'Structure-aware symbolic mutations of 7 representative valid PDUs; symbolic bodies <= 4 (quick) / 6 bytes; '
+         'abort demanded only for unknown type bytes and bodies shorter than the fixed part, elsewhere orderly abort or '
+         'lenient processing are both accepted; in Sta13 ignoring the bytes is accepted.',
+    design='5/C12')
+
 NOT_YET = 'check not built yet in this revision (see DESIGN.md section 5 for the plan)'
 
 NOT_APPLICABLE = {}
